@@ -3,6 +3,8 @@
      _random_number_to_data            -> rn2data
      generate_data_from_prob_dist      -> gen_data          (random numbers are an argument: oracle output)
      calc_empi_dist_sequence           -> empi_seq          (all error branches)
+   The model is the code AS REPAIRED by /verif/fixes/C14-*.diff; the definitions "as coded before the fix" that the
+   `_refuted` theorems talk about live in Model/C14_BeforeFix.v.
      calc_empi_dists_sequence          -> empi_seqs
      sampling / num_sum                -> multi_to_empi     (generate_empi_dist_sequence_from_prob_dist)
    Data values, sample sizes and measurement_num are Python ints, hence Z (negatives reach the
@@ -21,22 +23,47 @@ Infix "+" := (cadd F). Infix "*" := (cmul F). Infix "-" := (csub F). Infix "/" :
 Definition flt (x y : F) : bool := negb (kleb F y x).
 Definition klt (x y : F) : Prop := kle F x y /\ x <> y.
 
-(* ---- _random_number_to_data(probdist, random_number) ----
+(* ---- _random_number_to_data(probdist, random_number) ----   (as repaired by fixes/C14-rn2data-fallback-zero-probability)
      cumulative_sum = 0.0
+     last_positive = len(probdist) - 1
      for index, prob in enumerate(probdist):
          cumulative_sum += prob
          if random_number < cumulative_sum: return index
-     return len(probdist) - 1                                                   *)
+         if prob > 0.0: last_positive = index
+     return last_positive
+   The model splits the loop into its two independent parts: the early return (rn2d_go) and, when the loop runs to its
+   end, the last index of positive probability (last_pos_go).  The function REGENERATED from the Python text by the
+   translator is proved equal to rn2data on every run (coq/gen/C14_Equiv.v); rn2data_r below is the single-loop
+   transcription, generic in the addition, and Proofs/C14_DataGen.v proves rn2data_r (cadd F) = rn2data. *)
 Fixpoint rn2d_go (ps : list F) (cum : F) (r : F) (idx : nat) : option nat :=
   match ps with
   | [] => None
   | p :: t => let c := cum + p in if flt r c then Some idx else rn2d_go t c r (S idx)
   end.
+Fixpoint last_pos_go (ps : list F) (idx : nat) (lp : Z) : Z :=
+  match ps with
+  | [] => lp
+  | p :: t => last_pos_go t (S idx) (if flt 0 p then Z.of_nat idx else lp)
+  end.
+(* the fallback value: the LAST index of positive probability (len-1 if there is none; -1 for an empty vector) *)
+Definition last_positive (ps : list F) : Z := last_pos_go ps O (Z.of_nat (length ps) - 1)%Z.
 Definition rn2data (ps : list F) (r : F) : Z :=
   match rn2d_go ps 0 r O with
   | Some i => Z.of_nat i
-  | None => (Z.of_nat (length ps) - 1)%Z          (* fallback: the LAST index (-1 for an empty vector) *)
+  | None => last_positive ps
   end.
+
+(* the same function as ONE loop, with the accumulation `cumulative_sum += prob` performed by an arbitrary operation
+   [add]: exact addition (cadd F) gives rn2data; a correctly ROUNDED floating-point addition is another instance
+   (it satisfies  p <= 0 -> add c p <= c,  the only fact the validity theorem needs) *)
+Fixpoint rn2d_r (add : F -> F -> F) (ps : list F) (cum : F) (r : F) (idx : nat) (lp : Z) : Z :=
+  match ps with
+  | [] => lp
+  | p :: t => let c := add cum p in
+              if flt r c then Z.of_nat idx else rn2d_r add t c r (S idx) (if flt 0 p then Z.of_nat idx else lp)
+  end.
+Definition rn2data_r (add : F -> F -> F) (ps : list F) (r : F) : Z :=
+  rn2d_r add ps 0 r O (Z.of_nat (length ps) - 1)%Z.
 
 (* cumulative sums cum ps k = p_0 + ... + p_{k-1} *)
 Definition cum (ps : list F) (k : nat) : F := fold_left (cadd F) (firstn k ps) 0.
@@ -67,7 +94,7 @@ Definition fnat (n : nat) : F := fz (Z.of_nat n).
      1 measurement_num < 0
      2 some num_sum exceeds len(data)
      3 a datum outside [0, measurement_num)
-     4 num_sums not increasing                                                     *)
+     4 num_sums not increasing from 0 (first sample size <= 0, or a later one <= its predecessor)   *)
 Inductive eres (A : Type) := EOk (a : A) | EErr (code : nat).
 Arguments EOk {A} a. Arguments EErr {A} code.
 
@@ -108,6 +135,7 @@ Definition empi_seq (m : Z) (data : list Z) (num_sums : list Z) : eres (list (Z 
   | [] => EOk []
   | n0 :: rest =>
       let len := Z.of_nat (length data) in
+      if (n0 <=? 0)%Z then EErr 4 else           (* former_num_sum(=0) >= num_sums[0]   (fixes/C14-empi-seq-nonpositive-first-num-sum) *)
       if (len <? n0)%Z then EErr 2 else
       empi_loop m len data O (repeat O (Z.to_nat m)) n0 rest []
   end.
